@@ -11,8 +11,8 @@
    form = the space's own inner product, bounded self-adjoint pointwise
    multiplication): rn with any positive weighting, uniform_discr, product
    spaces are instances (Instances.v, Lists.v). *)
-From Coq Require Import Reals List Bool.
-From Verif Require Import Base.Num Base.Vec C09.Model C09.IPS C09.Proofs C09.Instances C09.Lists C09.Pointwise C09.Matrix C09.Product C09.Moreau C09.KL C09.Radial.
+From Coq Require Import QArith Qreals Reals List Bool.
+From Verif Require Import Base.Num Base.Vec C09.Model C09.IPS C09.Proofs C09.Instances C09.Lists C09.Pointwise C09.Matrix C09.Product C09.Moreau C09.KL C09.Radial C09.NumGrad C09.Transfer Gen.FunctionalLip C09.GenTie C09.PwProd.
 Local Open Scope R_scope.
 
 (* T1 (gradient rules, all trees).  For every expression tree, of any depth and
@@ -104,6 +104,10 @@ Theorem composed_operator_sound : forall (S1 S2 S3 : RSpace),
   forall (A : Oper S2 S3) (B : Oper S1 S2) x,
   op_sound B x -> op_sound A (op_app B x) -> op_sound (op_comp A B) x.
 Proof. exact op_comp_sound. Qed.
+(* OperatorPointwiseProduct(A, B): product rule for operators, with the adjoint the model uses *)
+Theorem pointwise_product_operator_sound : forall (S1 S2 : RSpace), SpaceLaws S1 -> SpaceLaws S2 ->
+  forall (A B : Oper S1 S2) x, op_sound A x -> op_sound B x -> op_sound (op_pwprod A B) x.
+Proof. exact op_pwprod_sound. Qed.
 (* MatrixOperator rn(n1) -> rn(n2) (unit weights): linear, bounded (Frobenius),
    and the plain transpose used by the code is its adjoint; the operator on the
    sigma carrier is Model.op_matrix applied to the underlying lists. *)
@@ -260,6 +264,122 @@ Theorem kl_cross_entropy_convex_conj_sound : forall (n : nat) (w : Vn n), Forall
   leaf_sound (sleaf_sep n w klcecc_phi klcecc_dphi g) x.
 Proof. exact klcecc_sound. Qed.
 Print Assumptions kl_cross_entropy_sound.
+
+(* NumericalGradient (derivatives.py; [numgrad] is tied to the code by its own
+   correspondence case set).  FULL STATEMENT of the property for it,
+     numgrad sqrt w e NGCentral h x = gradient e x   on every weighted list space
+   (for the quadratic L2NormSquared the central difference is exact), is FALSE of the
+   faithful model (open finding numericalgradient-weighted-space): what it computes
+   is, entry by entry, w_i times the gradient. *)
+Theorem numericalgradient_is_weight_times_gradient : forall (w x : list R) (h : R) (i : nat),
+  length x = length w -> (i < length w)%nat -> h <> 0 ->
+  nth i (numgrad sqrt w (FLeaf (leaf_l2sq (wspace sqrt w))) NGCentral h x) 0
+  = nth i w 0 * nth i (gradient (FLeaf (leaf_l2sq (wspace sqrt w))) x) 0.
+Proof. exact numgrad_central_l2sq. Qed.
+Theorem numericalgradient_weighted_refuted :
+  exists (w x : list R) (h : R), Forall (fun a => 0 < a) w /\ length x = length w /\ h <> 0 /\
+    numgrad sqrt w (FLeaf (leaf_l2sq (wspace sqrt w))) NGCentral h x
+    <> gradient (FLeaf (leaf_l2sq (wspace sqrt w))) x.
+Proof. exact numgrad_weighted_refuted. Qed.
+Theorem numericalgradient_unweighted_partial : forall (w x : list R) (h : R) (i : nat),
+  Forall (fun a => a = 1) w -> length x = length w -> (i < length w)%nat -> h <> 0 ->
+  nth i (numgrad sqrt w (FLeaf (leaf_l2sq (wspace sqrt w))) NGCentral h x) 0
+  = nth i (gradient (FLeaf (leaf_l2sq (wspace sqrt w))) x) 0.
+Proof. exact numgrad_unweighted_partial. Qed.
+(* the proposed repair (variant riesz = true: entries divided by w_i) is the gradient *)
+Theorem numericalgradient_repaired : forall (w x : list R) (h : R) (i : nat),
+  Forall (fun a => 0 < a) w -> length x = length w -> (i < length w)%nat -> h <> 0 ->
+  nth i (numgrad_v sqrt true w (FLeaf (leaf_l2sq (wspace sqrt w))) NGCentral h x) 0
+  = nth i (gradient (FLeaf (leaf_l2sq (wspace sqrt w))) x) 0.
+Proof. exact numgrad_repaired. Qed.
+Print Assumptions numericalgradient_weighted_refuted.
+
+(* Nested scalings are flattened by the constructors into one object with the merged
+   scalar ((f*a)*b stores f and b*a): value, gradient and grad_lipschitz of the nested
+   tree equal those of the merged one -- in particular the constant is (|b||a|)^2 L_f. *)
+Theorem nested_argument_scaling_merges : forall (S : RSpace), SpaceLaws S ->
+  forall (f : Rexpr S) (a b : R) (x : car S),
+  value (FRightScal (FRightScal f a) b) x = value (FRightScal f (b * a)) x
+  /\ gradient (FRightScal (FRightScal f a) b) x = gradient (FRightScal f (b * a)) x
+  /\ lipschitz (FRightScal (FRightScal f a) b) = lipschitz (FRightScal f (b * a)).
+Proof. exact rscal_merge. Qed.
+Theorem nested_left_scaling_merges : forall (S : RSpace), SpaceLaws S ->
+  forall (f : Rexpr S) (a b : R) (x : car S),
+  value (FLeftScal b (FLeftScal a f)) x = value (FLeftScal (b * a) f) x
+  /\ gradient (FLeftScal b (FLeftScal a f)) x = gradient (FLeftScal (b * a) f) x
+  /\ lipschitz (FLeftScal b (FLeftScal a f)) = lipschitz (FLeftScal (b * a) f).
+Proof. exact lscal_merge. Qed.
+
+(* TRANSFER: what the shards execute at Q is the rational restriction of what is proved
+   at R.  For related trees (same shape; scalars related by Q2R, vectors by map Q2R,
+   leaves/operators related pointwise) over the executed space [wspace sQ w] and the proved
+   space [wspace sqrt (map Q2R w)], and no division by zero at Q: *)
+Theorem model_transfer : forall (sQ : Q -> Q) (w : list Q)
+  (eQ : fexpr (wspace sQ w)) (eR : fexpr (wspace sqrt (map Q2R w))), trel sQ w eQ eR ->
+  forall x d : list Q, divs_ok eQ x ->
+  Q2R (value eQ x) = value eR (map Q2R x)
+  /\ map Q2R (gradient eQ x) = gradient eR (map Q2R x)
+  /\ Q2R (derivative eQ x d) = derivative eR (map Q2R x) (map Q2R d)
+  /\ is_linear eQ = is_linear eR.
+Proof. exact model_transfer_all. Qed.
+Print Assumptions model_transfer.
+(* and the concrete leaves / operators are related to themselves (at Q2R of their parameters) *)
+Theorem huber_leaf_transfer : forall (sQ : Q -> Q) (w : list Q) (g : Q), (0 < g)%Q ->
+  leaf_rel sQ w (leaf_huber sQ w g) (leaf_huber sqrt (map Q2R w) (Q2R g)).
+Proof. exact leaf_huber_rel. Qed.
+Theorem l1_leaf_transfer : forall (sQ : Q -> Q) (w : list Q),
+  leaf_rel sQ w (leaf_l1 sQ w) (leaf_l1 sqrt (map Q2R w)).
+Proof. exact leaf_l1_rel. Qed.
+Theorem l2sq_leaf_transfer : forall (sQ : Q -> Q) (w : list Q),
+  leaf_rel sQ w (leaf_l2sq (wspace sQ w)) (leaf_l2sq (wspace sqrt (map Q2R w))).
+Proof. exact leaf_l2sq_rel. Qed.
+Theorem pointwise_product_operator_transfer : forall (sQ : Q -> Q) (w1 w2 : list Q) A AR B BR,
+  op_rel sQ w1 w2 A AR -> op_rel sQ w1 w2 B BR -> op_rel sQ w1 w2 (op_pwprod A B) (op_pwprod AR BR).
+Proof. exact op_pwprod_rel. Qed.
+
+(* REGENERATED FORMULAS.  Gen/FunctionalLip.v is produced on every run from the
+   grad_lipschitz= / linear= arguments of each __init__ in the CURRENT source; the hand
+   model computes exactly these formulas (so a changed formula breaks this proof). *)
+Theorem lipschitz_uses_generated_formulas : forall (S : RSpace) (e : Rexpr S),
+  lipschitz e =
+  match e with
+  | FLeaf l => lf_lip l
+  | FLeftScal s f => gen_lip_LeftScalarMult s (lipschitz f)
+  | FRightScal f s => gen_lip_RightScalarMult s (lipschitz f)
+  | FRightVec _ _ => gen_lip_RightVectorMult
+  | FSum f g => gen_lip_Sum (lipschitz f) (lipschitz g)
+  | FTrans f _ => gen_lip_Translation (lipschitz f)
+  | FComp _ _ => gen_lip_Comp
+  | @FQuadPert _ X f a u _ =>
+      gen_lip_QuadraticPerturb (lipschitz f) (match u with Some v => Some (snorm X v) | None => None end) a
+  | FProd _ _ => gen_lip_Product
+  | FQuot _ _ => gen_lip_Quotient
+  | @FBregman _ X f _ s => gen_lip_BregmanDistance (lipschitz f) (snorm X s)
+  end.
+Proof. exact (@tie_lipschitz R _). Qed.
+Theorem is_linear_uses_generated_formulas : forall (S : RSpace) (e : Rexpr S),
+  is_linear e =
+  match e with
+  | FLeaf l => lf_linear l
+  | FLeftScal _ f => gen_lin_LeftScalarMult (is_linear f)
+  | FRightScal f _ => gen_lin_RightScalarMult (is_linear f)
+  | FRightVec f _ => gen_lin_RightVectorMult (is_linear f)
+  | FSum f g => gen_lin_Sum (is_linear f) (is_linear g)
+  | FTrans _ _ => gen_lin_Translation
+  | FComp f A => gen_lin_Comp (is_linear f) (op_linear A)
+  | FQuadPert f a _ c => gen_lin_QuadraticPerturb (is_linear f) a c
+  | FProd _ _ => gen_lin_Product
+  | FQuot _ _ => gen_lin_Quotient
+  | FBregman _ _ _ => gen_lin_BregmanDistance
+  end.
+Proof. exact (@tie_is_linear R _). Qed.
+Theorem leaf_constants_are_generated : forall (S : RSpace) (w : list R) (g c : R), 0 < g ->
+  lf_lip (leaf_l2sq S) = gen_lip_L2NormSquared
+  /\ lf_lip (leaf_const S c) = gen_lip_ConstantFunctional
+  /\ lf_linear (leaf_const S c) = gen_lin_ConstantFunctional c
+  /\ lf_lip (leaf_huber sqrt w g) = gen_lip_Huber g
+  /\ lf_lip (leaf_l2 S) = gen_lip_LpNorm.
+Proof. exact gen_leaf_constants. Qed.
 
 (* Non-vacuity: rn(1, weighting=w) satisfies the laws for every w > 0, and a
    tree using all eleven constructors satisfies every premise at every point. *)
